@@ -126,6 +126,37 @@ pub fn run(seed: u64, tier: &str, filter: &str, count: Option<u64>, out: &mut dy
                     }
                 }
             }
+            if name.starts_with("LIST.NEIGHBOR") && name.ends_with("VALS") && r.chance(3, 4) {
+                // well-formed use: one record per cell, each a list with values of all three types before, inside and
+                // after a sub-list; a small position operand; size around the number of records
+                use crate::gen::gen_float;
+                use pushr::push::item::Item;
+                let nrec = 4 + r.below(9) as i32;
+                st.code_stack.flush();
+                for k in 0..nrec {
+                    let lit = |r: &mut Rng, k: i32| match r.below(3) {
+                        0 => Item::int(10 * k + r.below(10) as i32),
+                        1 => Item::float(gen_float(r)),
+                        _ => Item::bool(r.chance(1, 2)),
+                    };
+                    let mut v = vec![];
+                    for _ in 0..r.below(3) {
+                        v.push(lit(&mut r, k));
+                    }
+                    let sub: Vec<Item> = (0..1 + r.below(3)).map(|_| lit(&mut r, k)).collect();
+                    v.push(Item::list(sub));
+                    for _ in 0..1 + r.below(3) {
+                        v.push(lit(&mut r, k));
+                    }
+                    st.code_stack.push(Item::list(v));
+                }
+                let size = nrec + *r.pick(&[-2i32, -1, 0, 0, 0, 1, 3]);
+                st.float_stack.push(*r.pick(&[0.0f32, 1.0, 1.5, 2.0]));
+                st.int_stack.push(1 + r.below(2) as i32); // dimensions
+                st.int_stack.push(r.below(size.max(1) as u64) as i32); // centre
+                st.int_stack.push(size);
+                st.int_stack.push(r.below(5) as i32); // position of the value inside a record
+            }
             if name.starts_with("FLOATVECTOR.SORT") && r.chance(1, 2) {
                 // total_cmp orders negative NaNs first and positive ones last: exercise both
                 if let Some(v) = st.float_vector_stack.get_mut(0) {
